@@ -48,9 +48,11 @@ SOURCES = [
     'std.objectRemoveKey(std.extVar("lib").acct, "pw")',                    # 26 derives an object from a shared one
     'std.extVar("lib").acct',                                               # 27 looks into the shared object
     'std.extVar("lib").acct + { pw: "q" }',                                 # 28 extends the shared object
+    # 29: a call that returns a FRESH object whose fields read self / $ / the argument (held by the caller only)
+    'function(o, n=1) o + { name: "svc" + n, url: "http://" + self.name + ":" + self.port, nested: { up: $.name, arr: [self.up, n] } }',
 ]
 CALLSRC_ARGS = {15: {"a": 13, "b": 14}}
-CALL_ARGS = {5: {"a": "10"}}
+CALL_ARGS = {5: {"a": "10"}, 29: {"o": "{ port: 80, [\"k\" + 1]: self.port + 1 }"}}
 
 
 def req_str(r):
@@ -92,7 +94,7 @@ def hist_case(reqs):
 def cfg(maxlen, limits):
     path = os.path.join(vlib.workdir("tlc"), f"gen_hist_{maxlen}.cfg")
     with open(path, "w") as f:
-        f.write("CONSTANTS Sources = {%s} CallSources = {5} CallSrcSources = {15} Limits = {%s} MaxLen = %d\n"
+        f.write("CONSTANTS Sources = {%s} CallSources = {5, 29} CallSrcSources = {15} Limits = {%s} MaxLen = %d\n"
                 "INIT Init\nNEXT Next\nINVARIANT Emit\nCHECK_DEADLOCK FALSE\n"
                 % (", ".join(str(i) for i in range(len(SOURCES))), ", ".join(map(str, limits)), maxlen))
     return path
@@ -103,7 +105,7 @@ BIG = 100000
 
 def run(tier, seed):
     chk = Check(PROP, tier, seed)
-    chk.rule = ("every history of length 2 and (quick: a seeded sample of) length 3, thorough also a sample of length 4, over 56 symbolic requests on 26 sources "
+    chk.rule = ("every history of length 2 and (quick: a seeded sample of) length 3, thorough also a sample of length 4, over the symbolic requests (eval, again, call, callsrc, gc, limit) on the 30 sources of the pool "
                 "sharing an external variable and an imported file; distinct = history; non-trivial = the history contains a "
                 "failing request or a limit change before its last request")
     chk.assumptions = ["the source pool is fixed in checks/c11.py (SOURCES, LIB, FILES)",
@@ -140,7 +142,7 @@ def run(tier, seed):
         else:
             base[(rs, lim)] = digest(r["outs"][1])
 
-    cases = [hist_case([concrete(q, hold=(hi + qi) % 3 == 0) for qi, q in enumerate(h["hist"])]) for hi, h in enumerate(hists)]
+    cases = [hist_case([concrete(q, hold=(q[0] in ("call", "callsrc") and hi % 2 == 0) or (hi + qi) % 3 == 0) for qi, q in enumerate(h["hist"])]) for hi, h in enumerate(hists)]
     results = run_cases(cases, "c11_hist", timeout_ms=60000)
 
     lines = [{"ev": "fresh", "req": rs, "limit": lim, "out": base[(rs, lim)],
